@@ -6,8 +6,9 @@ note = sys.argv[3] if len(sys.argv) > 3 else ""
 src = "/tmp/seed/%s/out" % sid
 dst = "/verif/seeded/%s" % sid
 os.makedirs(dst, exist_ok=True)
-for f in ("patch.diff", "demo_test.go"):
-    shutil.copy(os.path.join(src, f), os.path.join(dst, f))
+for f in ("patch.diff", "demo_test.go", "patch.rebased.diff"):
+    if os.path.exists(os.path.join(src, f)):
+        shutil.copy(os.path.join(src, f), os.path.join(dst, f))
 m = json.load(open(os.path.join(src, "meta.json")))
 log = open("/tmp/v/%s.verify.log" % sid).read() if os.path.exists("/tmp/v/%s.verify.log" % sid) else ""
 m["base_commit"] = subprocess.run(["git", "-C", "/repo", "rev-parse", "--short", "HEAD"], stdout=subprocess.PIPE, text=True).stdout.strip()
@@ -16,6 +17,8 @@ m["confirmed_in_scratch_worktree"] = {
     "log_tail": [l for l in log.split("\n") if l.strip()][-14:],
 }
 m["detected_by"] = det
+if os.path.exists(os.path.join(src, "patch.rebased.diff")):
+    m["patch_note"] = "patch.diff is the change as delivered (against the /repo HEAD of that moment, e6b882c); later fix commits touched the same lines, patch.rebased.diff is the same change ported onto base_commit and is what tools/verify_seed.sh applies"
 if note:
     m["note"] = note
 json.dump(m, open(os.path.join(dst, "meta.json"), "w"), indent=1)
